@@ -67,13 +67,36 @@ def _learn(c):
     return cl
 
 
+class DensityMismatch(Exception):
+    pass
+
+
+def _reference_density(combi, op, pts):
+    from checks.c16 import _hats_at
+    out = np.zeros(len(pts))
+    for comp in combi.scheme:
+        if hasattr(combi, "get_point_coord_for_each_dim"):
+            pc, _, _ = combi.get_point_coord_for_each_dim(comp.levelvector)
+            coords = [[float(x) for x in p] for p in pc]
+        else:
+            coords = [[i / 2 ** int(l) for i in range(2 ** int(l) + 1)] for l in comp.levelvector]
+        al = np.asarray(op.surpluses[tuple(comp.levelvector)], dtype=float).ravel()
+        out += comp.coefficient * np.array([float(np.dot(al, _hats_at(coords, x))) for x in pts])
+    return out
+
+
 def _expected(cl, lo, fac, Xd, yd):
     sc = (Xd - lo) * fac + 0.005
     inr = np.array([not (any(v < 0.0049 for v in r) or any(v > 0.9951 for v in r)) for r in sc])
     scin = sc[inr]
-    classifiers, _ = cl.get_density_estimation_results()
+    classifiers, ops = cl.get_density_estimation_results()
     if len(scin):
-        dens = np.array([np.asarray(k([tuple(p) for p in scin])).ravel() for k in classifiers]).T
+        # reference densities: sum_c coefficient_c * sum_j alpha_j phi_j(x) from the stored surpluses with independently evaluated hats
+        # (not through the library's interpolation routines, whose code paths and caches are part of what is checked)
+        dens = np.array([_reference_density(k, o, scin) for k, o in zip(classifiers, ops)]).T
+        lib = np.array([np.asarray(k([tuple(p) for p in scin])).ravel() for k in classifiers]).T
+        if lib.shape != dens.shape or not np.allclose(lib, dens, rtol=1e-9, atol=1e-10 * max(1.0, float(np.max(np.abs(dens))))):
+            raise DensityMismatch("library density %r, reference %r" % (lib.tolist()[:3], dens.tolist()[:3]))
         expc = np.argmax(dens, axis=1)
         gap = np.sort(dens, axis=1)
         tie = (gap[:, -1] - gap[:, -2]) < 1e-9 * np.maximum(1.0, np.abs(gap[:, -1])) if dens.shape[1] > 1 else np.zeros(len(scin), dtype=bool)
@@ -181,6 +204,8 @@ def run_case(case):
         n += 1
         try:
             issues, key = _run_sequence(c, seq)
+        except DensityMismatch as e:
+            issues, key = [("density_of_classifier", str(e)[:300])], {"learning": "dimension-wise" if c["dimwise"] else "standard"}
         except Exception as e:
             issues, key = [("exception", "%s: %s" % (type(e).__name__, str(e)[:200]))], {"learning": "dimension-wise" if c["dimwise"] else "standard", "type": type(e).__name__}
         for oracle, detail in issues:
@@ -233,6 +258,6 @@ def main(ctx):
         rule="one case = learning configuration x first operation; inside it ALL call sequences of the stated depth over {__call__, "
              "test_data} x {inside, partly outside, entirely outside, with unlabelled} are executed on freshly learned objects and the "
              "first evaluation is repeated at the end (evaluations = sequences)",
-        assumptions=["the expected class uses the learned classifiers themselves (their correctness is C16/C17) under the scaling fixed at "
-                     "learning time; samples whose two best densities are within 1e-9 are treated as ties (either class accepted)",
+        assumptions=["the expected class uses reference densities computed from the stored surpluses with independently evaluated hats, under "
+                     "the scaling fixed at learning time; the library's own density at the same points must agree with them; samples whose two best densities are within 1e-9 are treated as ties (either class accepted)",
                      "configurations with threshold=0 run the large-grid code paths on the same small grids (guarded hook); shuffle permutation chosen by the explorer; lambda=0.01, levels 1..3 (standard) / 1..2 with 30 evaluations (dimension-wise)"])
